@@ -45,15 +45,21 @@ def run_random(chk, fn, n, seed_salt, **kw):
 
 def run_ref_machine(chk, mc=True, procs=8, num=6, depth=8, thorough=False):
     """spec/Ref.tla: (A) the Ref machine as a state graph - history-level invariants and action properties checked on
-    every reachable state; (B) behaviours printed by `tlc -simulate` replayed on the real classes (queued)."""
+    every reachable state; (B) behaviours printed by `tlc -simulate` replayed on the real classes (queued).
+    Runs in the background; call the returned function before chk.flush()."""
     from concurrent.futures import ThreadPoolExecutor
     from harness import tlc
-    with ThreadPoolExecutor(max_workers=2) as ex:
-        f = ex.submit(chk.mc, 'Ref.tla', 'MC_Ref_thorough.cfg' if thorough else 'MC_Ref.cfg', workers=8) if mc else None
-        r = tlc.simulate_par('Ref.tla', 'MC_Ref_sim.cfg', chk.wd, procs, num, depth + 3, chk.seed + 11)
+    ex = ThreadPoolExecutor(max_workers=2)
+    f = ex.submit(chk.mc, 'Ref.tla', 'MC_Ref_thorough.cfg' if thorough else 'MC_Ref.cfg', workers=8 if thorough else 4) if mc else None
+    g = ex.submit(tlc.simulate_par, 'Ref.tla', 'MC_Ref_sim.cfg', chk.wd, procs, num, depth + 3, chk.seed + 11)
+
+    def join():
+        r = g.result()
         chk.mc_runs.append({'module': 'Ref.tla', 'cfg': 'MC_Ref_sim.cfg', 'mode': f'simulate x{procs} num={num} depth={depth}',
                             'states': r['states'], 'behaviours': len(r['hists']), 'wall_s': round(r['wall'], 2)})
         chk.states += r['states']
         chk.queue(edges.programs_from_histories(r['hists']), 'tlc-simulated-behaviours')
         if f:
             f.result()
+        ex.shutdown()
+    return join
